@@ -1,5 +1,16 @@
-//! C02 (filter level): closed loop of the real KalmanFilter with the plant of c13.rs
-//! over the property's ranges.  (exploration version)
+//! C02 (filter level): the real `KalmanFilter` (default configuration) in closed loop with
+//! the plant of `c13.rs` over the property's ranges: initial offset in [-10 s, 10 s],
+//! oscillator error within +-150 ppm, one-way delay in [1 us, 400 us], jitter amplitude in
+//! [0, 20 us], sync interval in {2^-3 .. 2^1 s}, alternating Sync / Delay_Resp measurements.
+//!
+//! A case carries
+//!   * the plant parameters and the jitter script of the first `PREFIX` events, from which the
+//!     Coq closed loop (plant model + Kalman model) must regenerate the same measurements,
+//!     clock replies and commands bit for bit;
+//!   * the events / replies / observations of that prefix (same format as C13);
+//!   * for the rest of the run (180 s of simulated time), the true offset and whether the
+//!     clock was stepped, sampled at every event at or after `T_CONV` = 120 s: the convergence
+//!     predicate of the property is evaluated on these in Coq.
 #![allow(dead_code)]
 #[path = "c13.rs"]
 mod base;
@@ -7,72 +18,111 @@ use base::*;
 use statime::filters::KalmanFilter;
 use svh::*;
 
-fn main() {
-    let a = parse_args();
-    silence_panics();
-    for i in a.start..a.start + a.count {
-        let mut r = Rng::new(a.seed, i);
-        let log_int = r.range(-3, 1);
-        let interval = if log_int >= 0 { (NS * FRAC) << log_int } else { (NS * FRAC) >> (-log_int) };
-        let theta0 = (r.below(20_000_001) as f64 - 10_000_000.0) * 1e-6;
-        let f0 = r.below(300_001) as f64 * 1e-3 - 150.0;
-        let delay = (1_000 + r.below(399_001) as i128) * FRAC;
-        let jit = (r.below(20_001) as i128) * FRAC;
-        let mut plant = Plant::new(Rng(r.next()));
-        plant.theta = sec_bits(theta0);
-        plant.f0 = f0;
-        plant.latency = 1000 * FRAC;
-        let secs = a.extra.iter().position(|x| x == "--secs").and_then(|p| a.extra.get(p + 1)).and_then(|x| x.parse().ok()).unwrap_or(120.0f64);
-        let int_s = interval as f64 / (1e9 * 4294967296.0);
-        let n = (2.0 * secs / int_s) as usize;
-        let mut jr = Rng(r.next());
-        let mut want_delay = false;
-        let mut trace: Vec<(f64, f64)> = vec![];
-        let mut elapsed: i128 = 0;
-        let mut steps_at: Vec<f64> = vec![];
-        let t0 = plant.l;
-        let (_events, obs) = run_stream::<KalmanFilter>(default_cfg(), &mut plant, |p, k| {
-            if k >= n {
-                return None;
-            }
-            let adv = if want_delay { interval / 16 } else { interval - interval / 16 };
-            p.advance(adv);
-            elapsed += adv;
-            let j = if jit == 0 { 0 } else { (jr.next() as i128 % (2 * jit + 1)) - jit };
-            let t = p.l;
-            let ev = if want_delay {
-                meas(t, None, Some(delay + j), None, None, Some(p.theta - delay + j))
-            } else {
-                meas(t, Some(p.theta + j), None, None, Some(p.theta + delay + j), None)
-            };
-            want_delay = !want_delay;
-            trace.push((elapsed as f64 / (1e9 * 4294967296.0), p.theta as f64 / 4294967296.0));
-            Some(ev)
-        });
-        for (k, o) in obs.iter().enumerate() {
-            if o.cmds.iter().any(|c| matches!(c, Cmd::Step(_))) {
-                steps_at.push(trace.get(k).map(|x| x.0).unwrap_or(-1.0));
-            }
+const PREFIX: usize = 120;
+const T_CONV_S: i128 = 120;
+const HORIZON_S: i128 = 180;
+
+fn gen(i: u64, r: &mut Rng) -> (String, String) {
+    // boundary lattice on the first indices, then uniform
+    let log_int = if i < 5 { i as i64 - 3 } else { r.range(-3, 1) };
+    let interval = if log_int >= 0 { (NS * FRAC) << log_int } else { (NS * FRAC) >> (-log_int) };
+    let theta0: i128 = match r.below(6) {
+        0 => 10 * NS * FRAC,
+        1 => -10 * NS * FRAC,
+        2 => (r.below(2_000_001) as i128 - 1_000_000) * FRAC, // +-1 ms: around the step threshold
+        _ => (r.below(20_000_001) as i128 - 10_000_000) * 1_000 * FRAC,
+    };
+    let f0 = match r.below(6) {
+        0 => 150.0,
+        1 => -150.0,
+        _ => r.below(300_001) as f64 * 1e-3 - 150.0,
+    };
+    let delay = match r.below(6) {
+        0 => 1_000 * FRAC,
+        1 => 400_000 * FRAC,
+        _ => (1_000 + r.below(399_001) as i128) * FRAC,
+    };
+    let jit = match r.below(6) {
+        0 => 0,
+        1 => 20_000 * FRAC,
+        _ => (r.below(20_001) as i128) * FRAC,
+    };
+    let latency = 1000 * FRAC;
+    let mut plant = Plant::new(Rng(r.next()));
+    let l0 = plant.l;
+    plant.theta = theta0;
+    plant.f0 = f0;
+    plant.latency = latency;
+    let mut jr = Rng(r.next());
+    let mut want_delay = false;
+    let mut elapsed: i128 = 0;
+    let mut jitters: Vec<i128> = vec![];
+    let mut samples: Vec<(i128, i128)> = vec![]; // (elapsed bits, theta bits) per event
+    let (events, obs) = run_stream::<KalmanFilter>(default_cfg(), &mut plant, |p, _k| {
+        if elapsed >= HORIZON_S * NS * FRAC {
+            return None;
         }
-        // time after which |theta| stays below band
-        let band = (4.0 * jit as f64 / 4294967296.0).max(1000.0);
-        let mut tconv = -1.0;
-        for k in (0..trace.len()).rev() {
-            if trace[k].1.abs() > band {
-                tconv = trace.get(k + 1).map(|x| x.0).unwrap_or(f64::INFINITY);
-                break;
-            }
+        let adv = if want_delay { interval / 16 } else { interval - interval / 16 };
+        p.advance(adv);
+        elapsed += adv;
+        let j = if jit == 0 { 0 } else { (jr.next() as i128 % (2 * jit + 1)) - jit };
+        jitters.push(j);
+        let t = p.l;
+        let ev = if want_delay {
+            meas(t, None, Some(delay + j), None, None, Some(p.theta - delay + j))
+        } else {
+            meas(t, Some(p.theta + j), None, None, Some(p.theta + delay + j), None)
+        };
+        want_delay = !want_delay;
+        samples.push((elapsed, p.theta));
+        Some(ev)
+    });
+    let n = events.len().min(PREFIX);
+    // replies consumed by the first n events = number of commands they issued
+    let ncmds: usize = obs.iter().take(n).map(|o| o.cmds.len()).sum();
+    let mut tail = vec![];
+    let mut late_step = false;
+    let mut worst: f64 = 0.0;
+    for (k, (el, th)) in samples.iter().enumerate() {
+        if *el >= T_CONV_S * NS * FRAC {
+            let stepped = obs.get(k).map(|o| o.cmds.iter().any(|c| matches!(c, Cmd::Step(_)))).unwrap_or(false);
+            late_step |= stepped;
+            worst = worst.max(*th as f64 / (jit + 1000 * FRAC) as f64);
+            tail.push(format!("({}, {})", zi(*th), coq_bool(stepped)));
         }
-        let tail_max = trace.iter().filter(|x| x.0 > secs - 60.0).map(|x| x.1.abs()).fold(0.0, f64::max);
-        let ratio = tail_max / (jit as f64 / 4294967296.0 + 1000.0);
-        let last_step = steps_at.iter().cloned().fold(0.0, f64::max);
-        if a.extra.iter().any(|x| x == "--summary") {
-            println!("S {} {:.3} {:.2} {:.2} {}", i, ratio, last_step, tconv, log_int);
-            continue;
-        }
-        println!(
-            "{} int={} theta0={:.3} f0={:.1} delay_us={} jit_ns={} band_ns={:.0} tconv={:.1} tailmax_ns={:.0} steps={:?} panic={}",
-            i, log_int, theta0, f0, delay / FRAC / 1000, jit / FRAC, band, tconv, tail_max, steps_at, obs.last().map(|o| o.res.is_none()).unwrap_or(false)
-        );
     }
+    let panicked = obs.iter().any(|o| o.res.is_none());
+    let steps = obs.iter().filter(|o| o.cmds.iter().any(|c| matches!(c, Cmd::Step(_)))).count();
+    let class = format!(
+        "int{}:steps{}:{}{}{}",
+        log_int,
+        steps.min(9),
+        if worst.abs() <= 0.25 { "tight" } else if worst.abs() <= 1.0 { "inband" } else { "OUT" },
+        if late_step { ":LATESTEP" } else { "" },
+        if panicked { ":panic" } else { "" }
+    );
+    let term = format!(
+        "(C02Params {} {} {} {} {} {} {}, {}, {}, {}, {}, {}, {})",
+        zmag(l0 as u128),
+        zi(theta0),
+        fz(f0),
+        zi(delay),
+        zi(interval),
+        zi(latency),
+        zi(jit),
+        coq_bool(!cfg!(debug_assertions)),
+        zlist(jitters.iter().take(n).map(|j| zi(*j))),
+        zlist(events.iter().take(n).map(ev_coq)),
+        zlist(plant.replies.iter().take(ncmds).map(|x| match x {
+            Some(t) => format!("Some {}", zmag(*t)),
+            None => "None".into(),
+        })),
+        zlist(obs.iter().take(n).map(obs_coq)),
+        zlist(tail)
+    );
+    (class, term)
+}
+
+fn main() {
+    drive(gen);
 }
